@@ -123,7 +123,7 @@ def jobs(tier, seed):
     for cfg in (CM, JS, ZERO, GFM):
         for mode in ("render", "renderInline"):
             if tier == "quick":
-                if mode == "renderInline" and cfg is not JS:
+                if mode == "renderInline" or cfg is GFM:
                     continue
                 _sharded(jobs, {"cfg": cfg, "mode": mode, "scaffold": free_doc(kp)}, weight=6)
             else:
